@@ -32,6 +32,10 @@ CHECKS = [
 ]
 
 CHECKS += [
+ {"id": "C01", "engine": "gridlint", "design_ref": "DESIGN.md 4/C01",
+  "technique": "static formula analysis: constructors of the variable-substitution quadratures translated from their syntax trees into algebraic normal forms (exp/log/hyperbolic/sqrt generators), differentiated with respect to the index array and compared as normal forms",
+  "text": "Decides ONE clause of the statement: for the rules defined by a change of variable sampled at equidistant t = k h (TanhSinh, ExpSinh, LogExpSinh, ExpExp, SingleTanh, SingleExp, SingleArcSinhExp) the weights are the step times the derivative of the node map at each node -- proved for all step sizes and all k at once as a polynomial identity of normal forms; the polynomial Trefethen maps satisfy _derg2 = _g2', _derg3 = _g3' and every Trefethen class pairs a map with the derivative of the same map at the same nodes.  Does NOT decide exactness on polynomial classes, ordering of nodes, nodes inside the domain, the Gauss/Fejer/Clenshaw-Curtis rules or the strip map (numerical; in particular the defective Fejer series bounds are out of reach).",
+  "note": _NOTE + " sympy serves as a polynomial-arithmetic library. The index array np.arange(...) is taken as a unit-step variable."},
  {"id": "C03", "engine": "gridlint", "design_ref": "DESIGN.md 4/C03",
   "technique": "static formula analysis: the closed-form methods are translated from their syntax trees into algebraic normal forms (quotients of polynomials over power/log/exp generators with irreducible bases), differentiated and compared as normal forms (zero polynomial = proof for all parameters); plus sibling value numbering, definite assignment and typestate rules",
   "text": "Decides, for all parameter values at once, on the source formulas of the 11 concrete transform classes: deriv/deriv2/deriv3 are the successive derivatives of transform (33 identities), inverse(transform(x)) = x (11), the generic inverse-derivative formulas are the inverse-function-theorem formulas and are identical in both copies, the finite reference end points (domain ends; 0 and b for the b-scaled maps) are sent to the ends of the declared codomain; _domain/_codomain definitely assigned; trim_inf stored and honoured, _convert_inf two-sided; transforms stateless apart from the set-once scale. A non-identity is reported only together with an admissible rational witness point at which the two formulas differ. Does NOT decide monotonicity or the behaviour at the infinite ends beyond 'the image is infinite'. Found and repaired: HandyModRTransform.deriv3 (wrong for every m other than 1, 2).",
@@ -76,7 +80,6 @@ CHECKS += [
 
 _PENDING = "checker designed in DESIGN.md but not yet built in this commit"
 NOT_APPLICABLE = [
-    {"property_id": "C01", "reason": "Exactness/ordering of quadrature rules for all n is numerical; the defective Fejer series bounds can only be recognised with the mathematics of the rule (CAS or experiment); no structural clause adds to the tests."},
     {"property_id": "C08", "reason": "Values, normalisation and derivatives of spherical harmonics are numerical; agreement of the six (l,m)->row encodings cannot be decided without evaluating them."},
     {"property_id": "C09", "reason": "Exact recovery of band-limited functions and derivative consistency of spline x harmonic interpolants are numerical."},
     {"property_id": "C15", "reason": "Accuracy of ODE solutions and the Bell-polynomial coefficient transformation are numerical/algebraic; the in-place update found in this file is decided under C20."},
